@@ -76,6 +76,7 @@ PROPS["C12"] = dict(
     theorems=["Goflow.C12.reset_total", "Goflow.C12.pool_independent", "Goflow.C12.sflow_stateless"],
     generators=[dict(name="C12", quick=60, thorough=4000)],
     harness=["impl"],
+    confirm_alone=True,
 )
 
 PROPS["C13"] = dict(
